@@ -4,6 +4,7 @@ C04.a exit status is a faithful function of the error count (cli.py, interval an
 C04.b one validation mode flows everywhere
 C04.c wrappers forward every parameter; verdict is a function of the iterator only
 C04.d the end-of-document reference check is on every completing path of the drivers
+C04.j collecting entry points run the iterator to exhaustion
 """
 from __future__ import annotations
 
@@ -580,4 +581,46 @@ def rule_i(ctx: Ctx) -> None:
                 'comes out differently must be in one of the reviewed functions (the reporter, the entry points that shape the return value).')
 
 
-RULES = [rule_a, rule_b, rule_c, rule_d, rule_e, rule_f, rule_g, rule_h, rule_i]
+ITER_APIS = ('iter_decode', 'iter_encode', 'iter_errors')
+
+
+def rule_j(ctx: Ctx) -> None:
+    """The iterating entry points yield the end-of-document errors (dangling IDREF, keyref) *after* the last result, so a collecting
+    entry point agrees with them only when it runs the iterator to exhaustion: its loop may be left by the strict `raise` alone."""
+    rule = 'C04.j'
+    n = 0
+    for f in ctx.idx.iter_functions():
+        if isinstance(f.node, ast.Lambda) or f.module.name.startswith(('xmlschema.testing', 'xmlschema.extras', 'xmlschema.cli')):
+            continue
+        for lp in walk_no_nested(f.node):
+            if not isinstance(lp, (ast.For, ast.AsyncFor)):
+                continue
+            it = lp.iter
+            if not (isinstance(it, ast.Call) and isinstance(it.func, ast.Attribute) and it.func.attr in ITER_APIS):
+                continue
+            if 'counter' in text(it.func.value):
+                continue    # KeyrefCounter.iter_errors: not a document walk
+            n += 1
+            leaves = []
+            stack = [(s, False) for s in lp.body]
+            while stack:
+                s, inner = stack.pop()
+                if isinstance(s, (ast.FunctionDef, ast.AsyncFunctionDef, ast.ClassDef, ast.Lambda)):
+                    continue
+                if isinstance(s, ast.Return) or (isinstance(s, ast.Break) and not inner):
+                    leaves.append(s)
+                deeper = inner or isinstance(s, (ast.For, ast.AsyncFor, ast.While))
+                for c in ast.iter_child_nodes(s):
+                    stack.append((c, deeper))
+            ok = not leaves
+            ctx.ob(rule, f'{f.qualname.split(".", 1)[-1]}: the loop over `{text(it.func)}()` is left only by exhaustion or by raising the error',
+                   f.loc(leaves[0]) if leaves else f.loc(lp), ok,
+                   '' if ok else f'`{text(leaves[0])[:40]}` leaves the loop while the iterator is suspended: the errors it yields after the last result (the end-of-document '
+                   'IDREF / keyref check) are never drawn, so this entry point accepts what iter_errors()/validate() reject',
+                   key=f'{f.qualname}|drain|{it.func.attr}')
+    ctx.floor(rule, 'collecting loops over iter_decode / iter_encode / iter_errors', n, 6)
+    ctx.explain('C04.j: every `for` loop over a call of iter_decode / iter_encode / iter_errors (schema, component, document and data-object entry points) contains '
+                'no `break` and no `return`: only exhaustion or the strict raise ends it.')
+
+
+RULES = [rule_a, rule_b, rule_c, rule_d, rule_e, rule_f, rule_g, rule_h, rule_i, rule_j]
